@@ -1110,6 +1110,9 @@ fn fresh_big(src: &str) -> String {
 fn os_programs(tmp: &str) -> Vec<(String, String)> {
     // (label, source) evaluated with the implicit prelude and run_io on; read-only or inside `tmp`
     let mut v: Vec<(String, String)> = vec![];
+    // FIRST job of its child (fresh VM): importing the primitive module directly, before anything
+    // loaded std.fs.prim (which registers the Metadata type std.path.prim refers to)
+    v.push(("std.path.prim.import".into(), "import! std.path.prim".into()));
     let paths = ["", ".", "/", "a/b.txt", "/nonexistent/c06", "a//b/../c", "\u{e9}\u{20ac}", "..", "a.b.c", "/verif/.cache"];
     for f in ["is_absolute", "is_relative", "has_root", "parent", "ancestors", "file_name", "file_stem", "extension", "components", "exists", "is_file", "is_dir", "metadata", "symlink_metadata", "canonicalize", "read_link", "read_dir"] {
         for p in paths.iter() {
@@ -1123,8 +1126,6 @@ fn os_programs(tmp: &str) -> Vec<(String, String)> {
             }
         }
     }
-    // importing the primitive module directly, before anything loaded std.fs.prim
-    v.push(("std.path.prim.import".into(), "import! std.path.prim".into()));
     for p in ["", "/nonexistent/c06", tmp, "/verif/.cache"] {
         v.push(("std.fs.prim.read_dir".into(), format!("let f = import! std.fs.prim in f.read_dir {}", str_lit(p))));
         v.push(("std.fs.read_dir".into(), format!("let f = import! std.fs in f.read_dir {}", str_lit(p))));
